@@ -12,9 +12,10 @@ open Car
     `StoreIdentityCIDs` is on — whether the source is seekable or a plain stream. -/
 theorem loadIndex_records_v1 (kind : SrcKind) (o : IdxOpts) (roots : Option (List Cid)) (bs : List Block)
     (hwf : (CarHeader.mk roots 1).wf) (hmax : (encodeHeaderBody ⟨roots, 1⟩).length ≤ o.maxHeader)
-    (h63 : (encodeHeaderBody ⟨roots, 1⟩).length < 2 ^ 63) (hok : ∀ b ∈ bs, b.idxOk o) :
+    (h63 : (encodeHeaderBody ⟨roots, 1⟩).length < 2 ^ 63) (hok : ∀ b ∈ bs, b.idxOk o)
+    (hsz : (payload roots bs).length < 2 ^ 63) :   -- positions fit an int64, as in any real file
     loadIndexRecords kind o (payload roots bs) = .ok (keptRecords o (headerSize ⟨roots, 1⟩) bs) :=
-  loadIndexRecords_v1 kind o roots bs hwf hmax h63 hok
+  loadIndexRecords_v1 kind o roots bs hwf hmax h63 hok hsz
 
 /-- (1') The same over a CARv2 with any data padding, index padding, and with or without an index
     after the payload: offsets are relative to the payload, and the scan stops at `DataSize`. -/
@@ -37,8 +38,9 @@ theorem loadIndex_kind_independent (o : IdxOpts) (dp ip : Nat) (roots : Option (
     loadIndexRecords .seekable o (payload roots bs) = loadIndexRecords .plain o (payload roots bs) ∧
     loadIndexRecords .seekable o (layoutV2 dp ip (payload roots bs) hasIdx fi index)
       = loadIndexRecords .plain o (payload roots bs) := by
-  rw [loadIndexRecords_v1 .seekable o roots bs hwf hmax h63 hok,
-      loadIndexRecords_v1 .plain o roots bs hwf hmax h63 hok,
+  have hsz : (payload roots bs).length < 2 ^ 63 := lok.dSize
+  rw [loadIndexRecords_v1 .seekable o roots bs hwf hmax h63 hok hsz,
+      loadIndexRecords_v1 .plain o roots bs hwf hmax h63 hok hsz,
       loadIndexRecords_v2 .seekable o dp ip roots bs hasIdx fi index hwf hmax h63 h10 lok hok]
   exact ⟨rfl, rfl⟩
 
